@@ -597,7 +597,8 @@ Proof.
       { subst stopbrk. unfold stop_bracket in H3. rewrite (nz_neq0 _ Hx), orb_false_r in H3.
         apply orb_true_iff in H3. destruct H3 as [H3|H3]; [left; apply N.eqb_eq; exact H3|].
         apply andb_true_iff in H3. destruct H3 as [H3a H3b]. right. split; [exact H3a|apply N.eqb_eq; exact H3b]. }
-      destruct Hx93 as [->|[-> ->]]; [|cbn; exact I].
+      destruct Hx93 as [->|[-> ->]];
+        [|change (91 =? 0) with false; change (91 =? 91) with true; cbn [orb andb]; cbn iota; cbn [ubind]; exact I].
       change (93 =? 0) with false. change (93 =? 91) with false. rewrite andb_false_r. cbn [orb]. cbn iota.
       rewrite (bwr_at _ (pre ++ 91 :: ho) 93 (af ++ 0 :: T) _ 0) by (try lsolve; lensolve). cbn [ulift ubind].
       destruct af as [|a0 ar].
